@@ -15,13 +15,13 @@ pub const DEF: PropDef = PropDef {
     run,
     replay,
     level: "exploration",
-    rule: "enumeration: for every handshake string x DH x message index, payload lengths {0,1,16,17, classes, max-2..max+2, 65535, 66000} x output buffers {predicted-17..predicted+17 around the prediction, 0, 65535, 65536, 66000}; reads of genuine messages with payload buffers around the payload length, of messages shorter than the fixed fields (every length in thorough) and longer than 65535; transport and stateless likewise. Prediction = sum of public-key lengths + 16 per encrypted field + payload length from the reference field map. Non-trivial = the call's outcome is constrained by the property (must succeed with the exact length, or must fail with the input error); distinct by (name, message, payload length, buffer length, kind)",
+    rule: "(transport) messages LONGER than 65535 bytes that are valid ciphertexts under the session key (sealed with the reference cipher under the reference Split() keys; lengths 65536, 65537, +15, +16, +17, +32, +100; stateful and stateless; both backends) must be refused, while the 65535-byte one sealed the same way is accepted; enumeration: for every handshake string x DH x message index, payload lengths {0,1,16,17, classes, max-2..max+2, 65535, 66000} x output buffers {predicted-17..predicted+17 around the prediction, 0, 65535, 65536, 66000}; reads of genuine messages with payload buffers around the payload length, of messages shorter than the fixed fields (every length in thorough) and longer than 65535; transport and stateless likewise. Prediction = sum of public-key lengths + 16 per encrypted field + payload length from the reference field map. Non-trivial = the call's outcome is constrained by the property (must succeed with the exact length, or must fail with the input error); distinct by (name, message, payload length, buffer length, kind)",
     technique: "boundary-value enumeration against a reference length model (field maps of the clean-room Noise model)",
     assumptions: &[
         "between `predicted` and `predicted+15` bytes of output buffer either outcome is accepted: no listed property says an exactly fitting buffer must succeed, and the code asks for 16 spare bytes even for an unencrypted payload",
     ],
     panic_is_violation: true,
-    needs_refnoise: false,
+    needs_refnoise: true,
 };
 
 #[derive(Clone, Debug, Serialize, Deserialize)]
@@ -410,6 +410,43 @@ pub fn run(ctx: &Ctx) {
         }
         ctx.run_list("dense_handshake_payloads", &hd, true, oracle);
     }
+    // valid ciphertexts longer than the limit (sealed with the reference cipher)
+    {
+        let suites = all_suites();
+        let mut over = Vec::new();
+        let mut k = 0usize;
+        for (si, suite) in suites.iter().enumerate() {
+            if suite.dh != DhKind::X25519 || si % 4 != ctx.tier.pick(k % 4, si % 4) {
+                k += 1;
+                continue;
+            }
+            k += 1;
+            for backend in [crate::instr::Backend::Default, crate::instr::Backend::RingFirst] {
+                if backend == crate::instr::Backend::RingFirst && !ring_covers(*suite) {
+                    continue;
+                }
+                for pat in ["NN", "N", "IK"] {
+                    for stateless in [false, true] {
+                        for r_to_i in [false, true] {
+                            if r_to_i && pat == "N" {
+                                continue;
+                            }
+                            for extra in [0usize, 1, 2, 15, 16, 17, 32, 100] {
+                                let mut spec = SessionSpec::simple(HsName { pattern: pat.to_string(), psks: vec![] }, *suite, mix(ctx.seed, (si * 100 + extra) as u64));
+                                spec.backend_i = backend;
+                                spec.backend_r = backend;
+                                let nonce = [0u64, 1, 77, 1 << 33][(extra + si) % 4];
+                                for buf in [65535usize + extra, 70000, 65519] {
+                                    over.push(OverCase { spec: spec.clone(), stateless, r_to_i, nonce, extra, buf });
+                                }
+                            }
+                        }
+                    }
+                }
+            }
+        }
+        ctx.run_list("oversize_valid_ciphertexts", &over, false, over_oracle);
+    }
     // random lengths: windows that no fixed list anticipates
     let names2 = std::sync::Arc::new(all_hs_names());
     let seed = ctx.seed;
@@ -460,9 +497,72 @@ pub fn run(ctx: &Ctx) {
     );
 }
 
+/// A transport message LONGER than 65535 bytes that is a valid AEAD ciphertext under the session
+/// key (sealed with the reference cipher under the reference model's Split() keys, since snow's
+/// own writers refuse to produce it): every read must fail. Control: the 65535-byte message
+/// sealed the same way is accepted.
+#[derive(Clone, Debug, Serialize, Deserialize)]
+pub struct OverCase {
+    pub spec: SessionSpec,
+    pub stateless: bool,
+    pub r_to_i: bool,
+    pub nonce: u64,
+    /// message length = 65535 + extra (0 = the control)
+    pub extra: usize,
+    pub buf: usize,
+}
+
+fn over_oracle(c: &OverCase, acc: &mut Acc) -> CaseResult {
+    use crate::refcrypto as rc;
+    use crate::refnoise::RefTransport;
+    let spec = &c.spec;
+    let name = format!("{} [{:?}/{:?}] stateless={} {}", spec.name_string(), spec.backend_i, spec.backend_r, c.stateless, if c.r_to_i { "r->i" } else { "i->r" });
+    let mut pair = build_pair(spec, None)?;
+    let mut mi = build_ref(spec, true, &EpOverrides::default()).map_err(|x| Fail::setup(format!("{x:?}")))?;
+    let mut mr = build_ref(spec, false, &EpOverrides::default()).map_err(|x| Fail::setup(format!("{x:?}")))?;
+    for k in 0..spec.n_msgs() {
+        let i_sends = k % 2 == 0;
+        let (w, r, mw, mrd) = if i_sends { (&mut pair.i, &mut pair.r, &mut mi, &mut mr) } else { (&mut pair.r, &mut pair.i, &mut mr, &mut mi) };
+        let m = hs_write(w, b"", 65535).map_err(|x| Fail::setup(e(&x)))?;
+        hs_read(r, &m, 65535).map_err(|x| Fail::setup(e(&x)))?;
+        let o = mw.write(Some(spec.e_priv(i_sends)), b"").map_err(|x| Fail::setup(format!("{x:?}")))?;
+        if o.msg != m {
+            return Err(Fail::setup(format!("{name}: handshake differs from the reference (C01's business); cannot derive the keys")));
+        }
+        mrd.read(&m).map_err(|x| Fail::setup(format!("{x:?}")))?;
+    }
+    let rt = RefTransport::from_hs(&mi);
+    let key = if c.r_to_i { rt.k_r2i } else { rt.k_i2r };
+    let total = 65535 + c.extra;
+    let plain = expand(spec.key_seed, 31, total - 16);
+    let msg = rc::aead_encrypt(spec.suite.cipher, &key, c.nonce, &[], &plain);
+    ensure!(msg.len() == total, "harness: sealed length");
+    let mut buf = vec![0u8; c.buf.max(if c.extra == 0 { total - 16 } else { 0 })];
+    let reader = if c.r_to_i { pair.i } else { pair.r };
+    let res = if c.stateless {
+        let t = reader.into_stateless_transport_mode().map_err(|x| Fail::setup(e(&x)))?;
+        t.read_message(c.nonce, &msg, &mut buf)
+    } else {
+        let mut t = reader.into_transport_mode().map_err(|x| Fail::setup(e(&x)))?;
+        t.set_receiving_nonce(c.nonce);
+        t.read_message(&msg, &mut buf)
+    };
+    if c.extra == 0 {
+        let n = res.map_err(|x| Fail::setup(format!("{name}: control: a 65535-byte message sealed with the reference cipher under the session key is rejected ({x:?}); keys not anchored")))?;
+        ensure!(buf[..n] == plain[..], "{name}: control payload differs");
+        acc.label("oversize:control_65535_accepted");
+    } else {
+        ensure!(res.is_err(), "{name}: a transport message of {total} bytes (> 65535; a valid ciphertext under the session key, nonce {}) was read successfully into a {}-byte buffer: {res:?}", c.nonce, buf.len());
+        acc.label(format!("oversize:+{}", c.extra.min(17)));
+        acc.nontrivial(&(name, c.extra, c.nonce, c.buf));
+    }
+    Ok(())
+}
+
 pub fn replay(ctx: &Ctx, sub: &str, case: &serde_json::Value, origin: &str) -> bool {
     match sub {
-        "transport_framing" => ctx.replay_case::<TCase, _>(sub, case, t_oracle, origin),
+        "oversize_valid_ciphertexts" => ctx.replay_case::<OverCase, _>(sub, case, over_oracle, origin),
+        x if x.contains("transport") => ctx.replay_case::<TCase, _>(sub, case, t_oracle, origin),
         _ => ctx.replay_case::<Case, _>(sub, case, oracle, origin),
     }
 }
